@@ -29,7 +29,7 @@ def impl_fn(m, fn_id, deps_form, bounds, vis):
         b = " + ".join(bounds) if bounds else "::core::marker::Sized"
         dty = "&%s(impl %s)" % (lt, b) if len(bounds) > 1 else "&%simpl %s" % (lt, b)
     ps = ["deps: " + dty] + [p.decl() for p in m.params]
-    sig = "%s%sfn %s%s(%s)%s%s" % (vis, "async " if m.is_async else "", m.name, g, ", ".join(ps), m.ret_text(), where)
+    sig = "%s%s%sfn %s%s(%s)%s%s" % (vis, "async " if m.is_async else "", "unsafe " if getattr(m, "unsafe_fn", False) else "", m.name, g, ", ".join(ps), m.ret_text(), where)
     return sig + " " + m.body(fn_id, "deps", name_expr='"name_from_%s"' % fn_id.split("::")[-2])
 
 
@@ -38,6 +38,11 @@ def build_case(cid, rng, dynamic, force_async=False, no_send=False, probes=False
     # async_trait is needed for dynamic selection and may also be used with static selection
     with_at = want_async and (dynamic or (not no_send and rng.random() < 0.3))
     t = tg.random_trait(rng, "Tr", dyn_safe=True, allow_async=want_async, with_async_trait=with_at, allow_generic_trait=False, allow_ghost=True)
+    if not probes and not t.async_trait:
+        for m_ in t.methods:
+            # `unsafe fn` / `async unsafe fn` methods: implemented by equally qualified fns of the blocks
+            if rng.random() < 0.12:
+                m_.unsafe_fn = True
     t.supers = [s for s in t.supers if "Sized" not in s]
     t.const_pos = None
     if not want_async:
@@ -176,7 +181,8 @@ def build_case(cid, rng, dynamic, force_async=False, no_send=False, probes=False
             s1, e1, d1 = m.call_args(base, "%d_%dd" % (ai, mi))
             s2, e2, d2 = m.call_args(base, "%d_%dt" % (ai, mi))
             base += len(m.params) + 1
-            wrap = (lambda c: "::vrt::block_on(%s)" % c) if m.is_async else (lambda c: c)
+            wrap0 = (lambda c: "::vrt::block_on(%s)" % c) if m.is_async else (lambda c: c)
+            wrap = (lambda c, w_=wrap0: w_("unsafe { %s }" % c)) if getattr(m, "unsafe_fn", False) else wrap0
             lab = "a%d:%s" % (ai, m.name)
             D.append('    ::vrt::phase("direct:%s");' % lab)
             D += ["    " + s for s in s1]
